@@ -45,6 +45,8 @@ pub const SRC_CLONE_FETCH_ADD: u32 = 24;
 pub const SRC_DROP_FETCH_SUB: u32 = 25;
 pub const SRC_DROP_STORE_CLOSED: u32 = 26;
 pub const SRC_DROP_NOTIFY: u32 = 27;
+/// before `self.push_lock.lock()`; the guard is released when try_send / try_send_drop_oldest return
+pub const SRC_PUSH_LOCK: u32 = 28;
 // media::track, SampleStreamTrack::recv / stop
 pub const RECV_LOAD_ENDED: u32 = 30;
 pub const RECV_LOCK: u32 = 31;
